@@ -125,6 +125,9 @@ pub fn normalise(ctx: &Ctx) {
     let shapes = limit_shapes(&ty);
     let li = ctx.pick("limits", shapes.len());
     let attr = ctx.pick("attribute", 4); // intensity, red, green, blue
+    // limits of the NEXT colour channel: 0 complete, 1 maximum missing, 2 both missing (the channel
+    // under test is judged by its own limits whatever the other channels carry)
+    let other = if attr == 0 { 0 } else { ctx.pick("next-channel-limits", 3) };
     let (lname, lmin, lmax) = shapes[li].clone();
     // candidate ranges the statement allows
     let (tlo, thi) = type_range(&ty);
@@ -188,6 +191,13 @@ pub fn normalise(ctx: &Ctx) {
             let mut cl = [Some(LVal::Int(0)), Some(LVal::Int(255)), Some(LVal::Int(0)), Some(LVal::Int(255)), Some(LVal::Int(0)), Some(LVal::Int(255))];
             cl[2 * (attr - 1)] = lmin;
             cl[2 * (attr - 1) + 1] = lmax;
+            let next = attr % 3; // channel index 0..2 of the next channel
+            if other >= 1 {
+                cl[2 * next + 1] = None;
+            }
+            if other == 2 {
+                cl[2 * next] = None;
+            }
             meta.color_limits = Some(cl);
         }
     }
@@ -196,7 +206,7 @@ pub fn normalise(ctx: &Ctx) {
     let n = points.len();
     scene.clouds.push(m::Cloud { meta, proto: proto.clone(), points, records: n as u64, file_offset: 0 });
     let Some((enc, _)) = model_file(ctx, &scene, Knobs::NONE) else { return };
-    ctx.describe(|| format!("{} typed {} with limits '{lname}' ({lmin:?}, {lmax:?}), {n} stored values, normalisation on and off", names[attr], ty.describe()));
+    ctx.describe(|| format!("{} typed {} with limits '{lname}' ({lmin:?}, {lmax:?}), next channel's limits {}, {n} stored values, normalisation on and off", names[attr], ty.describe(), ["complete", "without maximum", "absent"][other]));
     ctx.observe(&enc.bytes);
     ctx.count(format!("limits:{lname}"));
 
@@ -308,4 +318,90 @@ pub fn normalise(ctx: &Ctx) {
         }
     }
     ctx.nontrivial();
+}
+
+/// normalisation switched on after the iteration has started: the values of the last of three
+/// packets (decoded after the switch) must be normalised like on an iterator configured up front
+pub fn late_switch(ctx: &Ctx) {
+    let tys = [Ty::Int { min: 0, max: 255 }, Ty::Int { min: 0, max: 65535 }, Ty::F32 { min: Some(0.0), max: Some(1.0) }, Ty::Scaled { min: 0, max: 4095, scale: 0.25, offset: 0.0 }];
+    let ti = ctx.pick("type", tys.len());
+    let attr = ctx.pick("attribute", 4);
+    let first_setting = ctx.pick("initial-setting", 2) == 1;
+    let consumed = [1usize, 4][ctx.pick("points-before-switch", 2)];
+    let ty = tys[ti].clone();
+    let names = ["intensity", "colorRed", "colorGreen", "colorBlue"];
+    let mut proto = xyz(F32);
+    if attr == 0 {
+        proto.push(rec("intensity", ty.clone()));
+    } else {
+        for (k, n) in names[1..].iter().enumerate() {
+            proto.push(rec(n, if k + 1 == attr { ty.clone() } else { Ty::Int { min: 0, max: 255 } }));
+        }
+    }
+    let vals: Vec<Val> = stored_values(&ty, false).into_iter().take(60).collect();
+    let n = vals.len();
+    let points: Vec<Vec<Val>> = vals
+        .iter()
+        .map(|v| {
+            let mut p = vec![Val::F32(0.0), Val::F32(0.0), Val::F32(0.0)];
+            if attr == 0 {
+                p.push(*v);
+            } else {
+                for k in 1..4 {
+                    p.push(if k == attr { *v } else { Val::Int(9) });
+                }
+            }
+            p
+        })
+        .collect();
+    let mut scene = crate::scenes::scene(0);
+    scene.clouds.clear();
+    scene.clouds.push(m::Cloud { meta: m::CloudMeta { guid: Some("c".into()), ..Default::default() }, proto, points, records: n as u64, file_offset: 0 });
+    let Some((enc, _)) = model_file(ctx, &scene, Knobs { base_packets: 3, ..Knobs::NONE }) else { return };
+    ctx.describe(|| format!("{} typed {}: normalisation {} at first, switched after {consumed} points; 3 packets, {n} values", names[attr], ty.describe(), if first_setting { "on" } else { "off" }));
+    let run = |switch_at: Option<usize>, setting: bool| -> Result<Vec<Option<f32>>, String> {
+        let mut r = E57Reader::new(Dev::new(enc.bytes.clone())).map_err(|e| err_string(&e))?;
+        let pc = r.pointclouds().remove(0);
+        let mut it = r.pointcloud_simple(&pc).map_err(|e| err_string(&e))?;
+        it.normalize_intensity(setting);
+        it.normalize_color(setting);
+        it.intensity_to_color(false);
+        let mut out = Vec::new();
+        for k in 0..n + 1 {
+            if Some(k) == switch_at {
+                it.normalize_intensity(!setting);
+                it.normalize_color(!setting);
+            }
+            match it.next() {
+                None => break,
+                Some(Err(e)) => return Err(err_string(&e)),
+                Some(Ok(p)) => out.push(match attr {
+                    0 => p.intensity,
+                    1 => p.color.map(|c| c.red),
+                    2 => p.color.map(|c| c.green),
+                    _ => p.color.map(|c| c.blue),
+                }),
+            }
+        }
+        Ok(out)
+    };
+    let res = guarded(|| (run(Some(consumed), first_setting), run(None, !first_setting)));
+    match res {
+        Err(pi) => ctx.violation(format!("{P}/panic/{}", pi.class()), format!("simple iterator panicked at {} ({})", pi.loc, pi.msg)),
+        Ok((Ok(a), Ok(b))) if a.len() == n && b.len() == n => {
+            // the last packet holds the last third of the points
+            for i in (2 * n).div_ceil(3) + 1..n {
+                if a[i].map(f32::to_bits) != b[i].map(f32::to_bits) {
+                    ctx.violation(
+                        format!("{P}/late-switch-ignored"),
+                        format!("{} typed {}: normalisation switched {} after {consumed} points; value #{i} (third packet) is {:?}, an iterator configured that way from the start delivers {:?}", names[attr], ty.describe(), if first_setting { "off" } else { "on" }, a[i], b[i]),
+                    );
+                    return;
+                }
+            }
+            ctx.observe_u64((ti * 100 + attr * 10 + first_setting as usize * 2 + consumed) as u64);
+            ctx.nontrivial();
+        }
+        Ok((a, b)) => ctx.violation(format!("{P}/error/late-switch"), format!("iteration failed or delivered a wrong count: {:?} / {:?}", a.map(|v| v.len()), b.map(|v| v.len()))),
+    }
 }
